@@ -299,6 +299,16 @@ func (env *SpecEnv) ident(e *SExpr) Val {
 			return VInt{T: tFalse} // observer that has not fired on this path
 		}
 	}
+	// captured variables of a closure under contract
+	if f := env.st.frames[0]; f != nil {
+		for i, fv := range f.fn.FreeVars {
+			if fv.Name() == n && i < len(f.free) {
+				if p, ok := f.free[i].(VPtr); ok {
+					return env.st.load(p)
+				}
+			}
+		}
+	}
 	if v, ok := env.pkgMember(env.pkg, n); ok {
 		return v
 	}
@@ -714,9 +724,17 @@ func (env *SpecEnv) eqVals(a, b Val, e *SExpr) *Term {
 func (env *SpecEnv) binary(e *SExpr) Val {
 	switch e.Op {
 	case "&&":
-		return VInt{T: And(env.evalBool(e.Args[0]), env.evalBool(e.Args[1]))}
+		a := env.evalBool(e.Args[0])
+		if a.IsFalse() {
+			return VInt{T: tFalse}
+		}
+		return VInt{T: And(a, env.evalBool(e.Args[1]))}
 	case "||":
-		return VInt{T: Or(env.evalBool(e.Args[0]), env.evalBool(e.Args[1]))}
+		a := env.evalBool(e.Args[0])
+		if a.IsTrue() {
+			return VInt{T: tTrue}
+		}
+		return VInt{T: Or(a, env.evalBool(e.Args[1]))}
 	case "==>":
 		env.neg = !env.neg
 		a := env.evalBool(e.Args[0])
@@ -789,7 +807,30 @@ func (env *SpecEnv) quant(e *SExpr) Val {
 		env.bound[n] = s
 		bs = append(bs, s)
 	}
+	nFacts := len(env.st.facts)
 	body := env.evalBool(e.Args[0])
+	if !skolem && len(env.st.facts) > nFacts {
+		// typing facts about terms that mention the bound variables must be quantified too
+		var keep, lift []*Term
+		for _, ft := range env.st.facts[nFacts:] {
+			mentions := false
+			for _, b := range bs {
+				if containsSym(ft, b.Name) {
+					mentions = true
+				}
+			}
+			if mentions {
+				lift = append(lift, ft)
+				delete(env.st.factSet, ft.String())
+			} else {
+				keep = append(keep, ft)
+			}
+		}
+		env.st.facts = append(env.st.facts[:nFacts:nFacts], keep...)
+		if len(lift) > 0 {
+			env.st.addFact(Forall(bs, And(lift...)))
+		}
+	}
 	for _, n := range e.Bound {
 		if old, ok := saved[n]; ok {
 			env.bound[n] = old
@@ -1004,74 +1045,105 @@ func (env *SpecEnv) call(e *SExpr) Val {
 
 // ---- locations (modifies) -----------------------------------------------------------
 
-// havocLoc gives the location denoted by e a fresh value.
-func (env *SpecEnv) havocLoc(e *SExpr) {
+// Loc is one heap array cell (or row, when Idx is shorter than the array's depth).
+type Loc struct {
+	Name string
+	Sort string // sort of the whole heap array
+	Idx  []*Term
+}
+
+func (env *SpecEnv) ptrLocs(p VPtr) []Loc {
+	st := env.st
+	if p.Alloc != nil {
+		env.fail("modifies: location is a local variable")
+	}
+	prefix, idx := st.eng.heapAddr(p)
+	var out []Loc
+	for _, l := range st.eng.leaves(st.eng.pointee(p)) {
+		out = append(out, Loc{Name: prefix + l.Path, Sort: nestedSort(l.Sort, len(idx)), Idx: idx})
+	}
+	return out
+}
+
+// locs interprets a modifies expression as a set of heap locations.
+func (env *SpecEnv) locs(e *SExpr) []Loc {
 	st := env.st
 	switch e.Kind {
 	case "sel":
 		if e.Name == "*" {
-			// all fields of the object
 			p, ok := env.ev(e.Args[0]).(VPtr)
 			if !ok {
 				env.fail("modifies %s: not a pointer", exprStr(e))
 			}
-			t := st.eng.pointee(p)
-			st.store(p, st.freshVal(t, "mod"))
-			return
+			return env.ptrLocs(p)
 		}
 		base := env.ev(e.Args[0])
 		if p, ok := base.(VPtr); ok {
 			if np, ok := env.goField(p, e.Name); ok {
-				st.store(np, st.freshVal(st.eng.pointee(np), "mod_"+e.Name))
-				return
+				return env.ptrLocs(np)
 			}
 		}
-		if name, idx, sort, ok := env.modelLoc(base, e.Name); ok {
-			arr := st.heapGet(name, sort)
-			st.heapSet(name, Store(arr, idx, st.freshSym("mod_"+e.Name, ElemSort(sort))))
-			return
+		if name, ref, sort, ok := env.modelLoc(base, e.Name); ok {
+			return []Loc{{Name: name, Sort: sort, Idx: []*Term{ref}}}
 		}
 	case "index":
-		// model array element, slice element or map element
 		if e.Args[0].Kind == "sel" {
 			base := env.ev(e.Args[0].Args[0])
-			if name, ref, sort, ok := env.modelLoc(base, e.Args[0].Name); ok {
-				arr := st.heapGet(name, sort)
-				row := Select(arr, ref)
-				k := env.evalInt(e.Args[1])
-				st.heapSet(name, Store(arr, ref, Store(row, k, st.freshSym("mod_"+e.Args[0].Name, ElemSort(row.Sort)))))
-				return
+			if _, isPtr := base.(VPtr); !isPtr || true {
+				if name, ref, sort, ok := env.modelLoc(base, e.Args[0].Name); ok {
+					if _, isGo := env.tryGoField(base, e.Args[0].Name); !isGo {
+						return []Loc{{Name: name, Sort: sort, Idx: []*Term{ref, env.evalInt(e.Args[1])}}}
+					}
+				}
 			}
 		}
 		if s, ok := env.ev(e.Args[0]).(VSlice); ok {
 			k := env.evalInt(e.Args[1])
 			p := VPtr{Ref: s.Arr, Root: types.NewSlice(s.Elem), Path: []PathEl{{Field: -1, Index: Add(s.Off, k)}}}
-			st.store(p, st.freshVal(s.Elem, "mod_elem"))
-			return
+			return env.ptrLocs(p)
 		}
 	case "slice":
 		if s, ok := env.ev(e.Args[0]).(VSlice); ok {
 			names, sorts := env.x.elemHeaps(st, s.Elem)
+			var out []Loc
 			for i, name := range names {
-				arr := st.heapGet(name, ArrSort(ArrSort(sorts[i])))
-				st.heapSet(name, Store(arr, s.Arr, st.freshSym("mod_row", ArrSort(sorts[i]))))
+				out = append(out, Loc{Name: name, Sort: ArrSort(ArrSort(sorts[i])), Idx: []*Term{s.Arr}})
 			}
-			return
+			return out
 		}
 	case "unary":
 		if e.Op == "*" {
 			if p, ok := env.ev(e.Args[0]).(VPtr); ok {
-				st.store(p, st.freshVal(st.eng.pointee(p), "mod_deref"))
-				return
+				return env.ptrLocs(p)
 			}
 		}
 	case "ident":
 		if v, ok := env.ev(e).(VPtr); ok {
-			st.store(v, st.freshVal(st.eng.pointee(v), "mod_"+e.Name))
-			return
+			return env.ptrLocs(v)
 		}
 	}
 	env.fail("modifies: cannot interpret location %s", exprStr(e))
+	return nil
+}
+
+func (env *SpecEnv) tryGoField(base Val, name string) (VPtr, bool) {
+	if p, ok := base.(VPtr); ok {
+		return env.goField(p, name)
+	}
+	return VPtr{}, false
+}
+
+// havocLoc gives the locations denoted by e fresh values.
+func (env *SpecEnv) havocLoc(e *SExpr) {
+	st := env.st
+	for _, l := range env.locs(e) {
+		arr := st.heapGet(l.Name, l.Sort)
+		es := l.Sort
+		for range l.Idx {
+			es = ElemSort(es)
+		}
+		st.heapSet(l.Name, storeN(arr, l.Idx, st.freshSym("mod:"+l.Name, es)))
+	}
 }
 
 func (env *SpecEnv) modelLoc(owner Val, name string) (heap string, ref *Term, sort string, ok bool) {
